@@ -8,12 +8,12 @@ matched prefix of a rejected trace).  TLC runs with one worker.
 """
 import json
 import os
+import re
 
 from . import tlc
 
 
-def validate(ctx, module, traces, label, env=None, cfg=None):
-    """Returns (rejected indices (0-based), violated invariant or None, TLCResult)."""
+def _run(ctx, module, traces, label, env, cfg):
     path = os.path.join(ctx.work, 'traces_%s_%s.json' % (module, label))
     with open(path, 'w') as fh:
         json.dump(traces, fh)
@@ -26,7 +26,43 @@ def validate(ctx, module, traces, label, env=None, cfg=None):
         if line.startswith('<<"done", '):
             done.add(int(line[len('<<"done", '):].rstrip('>')) - 1)
     os.unlink(path)
-    return set(range(len(traces))) - done, res.violated, res
+    culprit = None
+    if res.violated:
+        m = re.findall(r'^/\\ tid = (\d+)', res.output, re.M)
+        if m:
+            culprit = int(m[-1]) - 1
+    return done, res, culprit
+
+
+def validate(ctx, module, traces, label, env=None, cfg=None, max_rounds=6):
+    """Returns (rejected indices (0-based), violated invariant or None, TLCResult).
+
+    A trace is rejected when it cannot be consumed to its last line, or when an
+    invariant / action property of the module fails on one of its states.  TLC
+    stops at the first invariant violation, so the culprit (its tid is in the
+    printed counterexample) is set aside and the remaining traces re-validated.
+    """
+    idx = list(range(len(traces)))
+    rejected = set()
+    first_inv = None
+    res = None
+    for _ in range(max_rounds):
+        done, res, culprit = _run(ctx, module, [traces[i] for i in idx], label, env, cfg)
+        if res.violated and culprit is not None:
+            first_inv = first_inv or res.violated
+            rejected.add(idx[culprit])
+            del idx[culprit]
+            if not idx:
+                break
+            continue
+        if res.violated:
+            first_inv = first_inv or res.violated
+        rejected |= {idx[j] for j in range(len(idx)) if j not in done}
+        break
+    else:
+        # too many invariant-violating traces: everything not yet cleared is suspect
+        rejected |= set(idx)
+    return rejected, first_inv, res
 
 
 def diagnose(ctx, module, trace, env=None, cfg=None):
